@@ -164,7 +164,7 @@ func (in *Interp) schedPoint(kind string) {
 	if in.preempts >= in.cfg.PreemptBound {
 		return
 	}
-	if in.m.noPreempt > 0 {
+	if in.m.noPreempt > 0 || (in.m.onlyYield && kind != "yield") {
 		return
 	}
 	var others []*Thread
